@@ -506,6 +506,13 @@ def compare(ex, op, a, b):
         return {"<": a < b, "<=": a <= b, ">": a > b, ">=": a >= b}[op]
     if isinstance(a, WellV) and isinstance(b, WellV):
         return well_order(ex, op, a, b)
+    if isinstance(a, ColDigitsV) and isinstance(b, ColDigitsV):
+        # string order of the printed column numbers == numeric order while both have two digits (columns 1..99)
+        from . import lib
+
+        lib.used("order of '{c:02d}' strings is the numeric order (columns 1..99, as in the property)")
+        ta, tb = term(a.c, "int"), term(b.c, "int")
+        return mk_bool({"<": ta < tb, "<=": ta <= tb, ">": ta > tb, ">=": ta >= tb}[op])
     if (_is_strish(a) and kb) or (_is_strish(b) and ka):
         _raise("TypeError", f"{op} between str and number")
     if isinstance(a, SeqV) and isinstance(b, SeqV):
@@ -1218,6 +1225,11 @@ def map_get(ex, m: MapV, key, default=KeyError):
             if ex.p.branch(unwrap_bool(cond), "dictkey"):
                 return val
         if default is KeyError:
+            fac = getattr(m, "default_factory", None)
+            if fac is not None:
+                val = ex.call(fac, [], {})
+                m.items.append((key, val))
+                return val
             _raise("KeyError", key)
         return default
     has = m.dom(key)
